@@ -108,6 +108,115 @@ def spec_aexpr(t):
     return None if r == "err" else int(r)
 
 
+def gen_uexpr(rng, depth, B):
+    if depth == 0 or rng.random() < 0.2:
+        return ["lit", rng.choice(B) if rng.random() < 0.6 else rng.randint(0, 20)]
+    if rng.random() < 0.04:
+        return ["neg", gen_uexpr(rng, depth - 1, B)]
+    return [rng.choice(["add", "sub", "mul", "div", "mod"]), gen_uexpr(rng, depth - 1, B), gen_uexpr(rng, depth - 1, B)]
+
+
+def spec_uexpr(t):
+    """exact naturals, checked against [0, 2^64) at every node; None = error (unary minus always)"""
+    if t[0] == "lit":
+        return t[1]
+    if t[0] == "neg":
+        return None
+    x, y = spec_uexpr(t[1]), spec_uexpr(t[2])
+    if x is None or y is None:
+        return None
+    r = spec_int(t[0], x, y, 0, U_MAX, False)
+    return None if r == "err" else int(r)
+
+
+def render_lits(t, suffix):
+    """fully parenthesised text with literal leaves (`(-5)`, `7u`)"""
+    if t[0] == "lit":
+        return f"({t[1]}{suffix})"
+    if t[0] == "neg":
+        return f"-({render_lits(t[1], suffix)})"
+    return f"({render_lits(t[1], suffix)} {OPSYM[t[0]]} {render_lits(t[2], suffix)})"
+
+
+QNAN_BITS = 0x7ff8000000000000
+
+
+def ieee_div(x, y):
+    """x / y per IEEE-754, written without celtypes: Python raises on a zero divisor, IEEE does not"""
+    if y == 0.0:
+        if x != x or x == 0.0:
+            return math.nan
+        return math.copysign(math.inf, x) * math.copysign(1.0, y)
+    return x / y
+
+
+def gen_dexpr(rng, depth, pool):
+    if depth == 0 or rng.random() < 0.2:
+        return ["lit", celrun.dbl_bits(rng.choice(pool))]
+    if rng.random() < 0.3:
+        return ["neg", gen_dexpr(rng, depth - 1, pool)]
+    return [rng.choice(["add", "sub", "mul", "div"]), gen_dexpr(rng, depth - 1, pool), gen_dexpr(rng, depth - 1, pool)]
+
+
+def leaf_dbl(b):
+    return math.nan if b == "nan" else celrun.bits_dbl(int(b))
+
+
+def spec_dexpr(t):
+    if t[0] == "lit":
+        return leaf_dbl(t[1])
+    if t[0] == "neg":
+        return -spec_dexpr(t[1])
+    x, y = spec_dexpr(t[1]), spec_dexpr(t[2])
+    if t[0] == "div":
+        return ieee_div(x, y)
+    return {"add": x + y, "sub": x - y, "mul": x * y}[t[0]]
+
+
+def dexpr_tokens(t):
+    if t[0] == "lit":
+        return f"lit {QNAN_BITS if t[1] == 'nan' else t[1]}"
+    if t[0] == "neg":
+        return "neg " + dexpr_tokens(t[1])
+    return f"{t[0]} {dexpr_tokens(t[1])} {dexpr_tokens(t[2])}"
+
+
+def has_nan_leaf(t):
+    if t[0] == "lit":
+        return t[1] == "nan"
+    return any(has_nan_leaf(x) for x in t[1:])
+
+
+def band_pairs(rng, signed, n):
+    """operand pairs whose EXACT result misses the range by less than one extra bit (or just fits):
+    for int the bands [-(2^64-1), -(2^63)-1] and [2^63, 2^64-1], for uint [2^64, 2^65-1] and [-(2^64), -1];
+    the class of changes they stand for: a range test that is right on one side only, a test on the bit length,
+    a mask, a comparison against the wrong power of two."""
+    lo, hi = (I_MIN, I_MAX) if signed else (0, U_MAX)
+    width = hi - lo + 1
+    out = []
+    for _ in range(n):
+        below = rng.random() < 0.5
+        d = rng.choice([1, 2, 3, rng.randint(1, 2**16), rng.randint(1, width - 1), width - 1, width - 2])
+        r = lo - d if below else hi + d          # the exact result aimed at
+        if rng.random() < 0.25:
+            r = rng.choice([lo, lo + 1, hi, hi - 1])     # ... or the last values that fit
+        op = rng.choice(["add", "sub", "mul"])
+        a = rng.randint(lo, hi) if rng.random() < 0.6 else rng.choice([lo, lo + 1, hi, hi - 1, -1 if signed else 1, 1, 2, 3])
+        if op == "add":
+            b = r - a
+        elif op == "sub":
+            b = a - r
+        else:
+            a = rng.choice([-3, -2, 2, 3, 5, 2**31, 2**32 + 1, -(2**33) + 1, rng.randint(2, 2**40)])
+            if not signed:
+                a = abs(a)
+            b = r // a
+        if lo <= a <= hi and lo <= b <= hi:
+            out.append((op, a, b))
+    return out
+
+
 DBL_SPECIAL = [0.0, -0.0, math.inf, -math.inf, math.nan, 5e-324, -5e-324, 1.7976931348623157e308,
                -1.7976931348623157e308, 1.0, -1.0, 2.0, 0.5, 3.0, 1e308, -1e308, 2.2250738585072014e-308, 0.1, 1e-320]
 
@@ -165,6 +274,64 @@ class C01(Prop):
                 for via in ("I", "C"):
                     for style in range(3):
                         cases.append({"kind": "x", "tree": t, "via": via, "style": style})
+        # -- round 2 ------------------------------------------------------------------------------
+        ALLVIA = ["dunder", "rdunder", "I", "C", "Ivar", "Cvar"]
+        for ty, signed in (("i", True), ("u", False)):
+            B = boundary(signed, small=True)
+            lo, hi = (I_MIN, I_MAX) if signed else (0, U_MAX)
+            # results that miss the range by less than one bit, on either side
+            for (op, a, b) in band_pairs(rng, signed, 260 if quick else 6000):
+                cases.append({"kind": ty, "op": op, "a": a, "b": b, "via": rng.choice(ALLVIA)})
+            # zero divisor for / and %: every path, dividends of every size (also a computed zero: see trees)
+            for a in rng.sample(B, 10) + [0, 1, hi, lo, rng.randint(lo, hi)]:
+                for op in ("div", "mod"):
+                    for via in ALLVIA:
+                        cases.append({"kind": ty, "op": op, "a": a, "b": 0, "via": via})
+            # divisors with a special shape (powers of two, all ones, +-1, the extremes) against random dividends
+            shapes = [1, 2, 4, 8, 2**31, 2**32, 2**62, 2**63 - 1, 3, 10, hi, hi - 1] + ([2**63, 2**63 + 1] if not signed else [-1, -2, -(2**32), lo, lo + 1])
+            for _ in range(150 if quick else 4000):
+                a = rng.choice([rng.randint(lo, hi), rng.choice(B), rng.randint(lo, hi) >> rng.randrange(64)])
+                if not signed:
+                    a = abs(a)
+                cases.append({"kind": ty, "op": rng.choice(["div", "mod"]), "a": a, "b": rng.choice(shapes), "via": rng.choice(ALLVIA)})
+            # results that are exactly zero (a value that is falsy in Python)
+            for a in rng.sample(B, 8) + [1, hi, lo]:
+                for (op, x, y) in (("sub", a, a), ("mul", a, 0), ("mul", 0, a), ("mod", a, a), ("mod", a, 1), ("div", 0, a), ("add", 0, 0)):
+                    cases.append({"kind": ty, "op": op, "a": x, "b": y, "via": rng.choice(ALLVIA)})
+                if signed and a != lo:
+                    cases.append({"kind": ty, "op": "add", "a": a, "b": -a, "via": rng.choice(ALLVIA)})
+        # uint expression trees through both runners (literals with the u suffix, or bound variables)
+        BU = boundary(False, small=True)
+        for _ in range(300 if quick else 6000):
+            t = gen_uexpr(rng, rng.randint(1, 3), BU)
+            cases.append({"kind": "ux", "tree": t, "via": rng.choice(["I", "C"]), "style": rng.choice([0, 2, "lit"])})
+        for a in (0, 1, U_MAX, 2**63, 7):
+            for t in (["mod", ["lit", a], ["sub", ["lit", 5], ["lit", 5]]], ["div", ["lit", a], ["mul", ["lit", 0], ["lit", a]]],
+                      ["sub", ["lit", 0], ["lit", a]], ["neg", ["lit", a]], ["add", ["lit", a], ["neg", ["lit", 0]]],
+                      ["mod", ["lit", a], ["mod", ["lit", a], ["lit", 1]]], ["mul", ["add", ["lit", a], ["lit", 1]], ["lit", 0]]):
+                for via in ("I", "C"):
+                    cases.append({"kind": "ux", "tree": t, "via": via, "style": rng.choice([0, 2, "lit"])})
+        # int trees with literal leaves as well (the compiled runner pastes literals into Python source)
+        for _ in range(120 if quick else 3000):
+            t = gen_aexpr(rng, rng.randint(1, 3), boundary(True, small=True))
+            cases.append({"kind": "x", "tree": t, "via": rng.choice(["I", "C"]), "style": "lit"})
+        # double unary minus and double expression trees (a wrong sign of zero shows as the sign of an infinity)
+        dpool = list(DBL_SPECIAL) + [struct.unpack("<d", struct.pack("<Q", rng.getrandbits(64)))[0] for _ in range(20)]
+        for x in dpool:
+            for via in ("dunder", "I", "C", "Ivar", "Cvar"):
+                cases.append({"kind": "d", "op": "neg", "a": celrun.dbl_bits(x), "b": "0", "via": via, "nan_a": x != x, "nan_b": False})
+        for _ in range(350 if quick else 8000):
+            t = gen_dexpr(rng, rng.randint(1, 3), dpool)
+            cases.append({"kind": "dx", "tree": t, "via": rng.choice(["I", "C"])})
+        for z in (0.0, -0.0):
+            for w in (1.0, -1.0, -4.0, math.inf, 5e-324, -5e-324):
+                zb, wb, one = celrun.dbl_bits(z), celrun.dbl_bits(w), celrun.dbl_bits(1.0)
+                for t in (["div", ["lit", one], ["neg", ["lit", zb]]], ["div", ["lit", one], ["mul", ["lit", zb], ["lit", wb]]],
+                          ["div", ["lit", wb], ["div", ["lit", zb], ["lit", wb]]], ["div", ["lit", one], ["sub", ["lit", zb], ["lit", zb]]],
+                          ["div", ["lit", one], ["add", ["lit", zb], ["neg", ["lit", zb]]]], ["neg", ["neg", ["lit", zb]]],
+                          ["div", ["lit", wb], ["mul", ["lit", celrun.dbl_bits(-1e-200)], ["lit", celrun.dbl_bits(1e-200)]]]):
+                    for via in ("I", "C"):
+                        cases.append({"kind": "dx", "tree": t, "via": via})
         # doubles
         ds = list(DBL_SPECIAL)
         for _ in range(60 if quick else 600):
@@ -174,9 +341,7 @@ class C01(Prop):
             dpairs.append((rng.choice(ds), rng.choice(ds)))
         for (x, y) in dpairs:
             for op in ("add", "sub", "mul", "div"):
-                via = rng.choice(["dunder", "rdunder", "I", "C", "Ivar"]) if op == "div" else rng.choice(["dunder", "I", "C"])
-                if via == "rdunder" and op != "div":
-                    via = "dunder"
+                via = rng.choice(["dunder", "rdunder", "I", "C", "Ivar", "Cvar"])
                 cases.append({"kind": "d", "op": op, "a": celrun.dbl_bits(x), "b": celrun.dbl_bits(y),
                               "via": via, "nan_a": x != x, "nan_b": y != y})
         return cases
@@ -185,10 +350,18 @@ class C01(Prop):
     def impl(self, c):
         from celpy import celtypes
         import operator
-        if c["kind"] == "x":
+        if c["kind"] in ("x", "ux"):
+            T = celtypes.IntType if c["kind"] == "x" else celtypes.UintType
+            if c["style"] == "lit":
+                return celrun.run(render_lits(c["tree"], "" if c["kind"] == "x" else "u"), c["via"])
             env = {}
             src = render_aexpr(c["tree"], env, c["style"])
-            return celrun.run(src, c["via"], {k: celtypes.IntType(v) for k, v in env.items()})
+            return celrun.run(src, c["via"], {k: T(v) for k, v in env.items()})
+        if c["kind"] == "dx":
+            env = {}
+            src = render_aexpr(c["tree"], env, 0)
+            out = celrun.run(src, c["via"], {k: celtypes.DoubleType(leaf_dbl(v)) for k, v in env.items()})
+            return out.replace("pyfloat:", "double:")
         kind, op, via = c["kind"], c["op"], c["via"]
         if kind in ("i", "u"):
             T = celtypes.IntType if kind == "i" else celtypes.UintType
@@ -224,6 +397,23 @@ class C01(Prop):
         # doubles
         x, y = celrun.bits_dbl(int(c["a"])) if c["a"] != "nan" else math.nan, celrun.bits_dbl(int(c["b"])) if c["b"] != "nan" else math.nan
         D = celtypes.DoubleType
+        if op == "neg":
+            if via == "dunder":
+                try:
+                    r = -D(x)
+                except Exception as ex:
+                    return "raise " + type(ex).__name__
+                return "ok " + celrun.dbl_bits(r)
+            if via in ("I", "C") and x == x and not math.isinf(x):
+                s_ = repr(abs(float(x)))
+                if "e" in s_ and "." not in s_:
+                    m_, e_ = s_.split("e")
+                    s_ = m_ + ".0e" + e_
+                src = f"-({s_})" if math.copysign(1.0, x) > 0 else f"-(-{s_})"
+                out = celrun.run(src, via)
+            else:
+                out = celrun.run("-x", via[0], {"x": D(x)})
+            return out.replace("pyfloat:", "double:")
         f = {"add": operator.add, "sub": operator.sub, "mul": operator.mul, "div": operator.truediv}[op]
         if via in ("dunder", "rdunder"):
             try:
@@ -254,20 +444,28 @@ class C01(Prop):
     def model_line(self, c):
         if c["kind"] == "x":
             return "x " + aexpr_tokens(c["tree"])
+        if c["kind"] == "ux":
+            return "ux " + aexpr_tokens(c["tree"])
+        if c["kind"] == "dx":
+            return "dx " + dexpr_tokens(c["tree"])
         if c["kind"] in ("i", "u"):
             op = c["op"]
             if c["via"] == "rdunder":
                 op = "r" + op
             return f"{c['kind']} {op} {c['a']} {c['b']}"
-        if c["a"] == "nan" or c["b"] == "nan":
-            return None
-        op = "rdiv" if (c["op"] == "div" and c["via"] == "rdunder") else c["op"]
-        return f"d {op} {c['a']} {c['b']}"
+        a = QNAN_BITS if c["a"] == "nan" else c["a"]
+        b = QNAN_BITS if c["b"] == "nan" else c["b"]
+        op = ("r" + c["op"]) if (c["via"] == "rdunder" and c["op"] != "neg") else c["op"]
+        return f"d2 {op} {a} {b}"
 
     def model_expect(self, c, m):
         via, kind = c["via"], c["kind"]
         if kind == "x":
             return "int:" + m[3:] if m.startswith("ok ") else "err"
+        if kind == "ux":
+            return "uint:" + m[3:] if m.startswith("ok ") else "err"
+        if kind == "dx":
+            return "double:" + m
         if kind in ("i", "u"):
             if via in ("dunder", "rdunder"):
                 return m
@@ -292,6 +490,17 @@ class C01(Prop):
             if out != exp:
                 return f"{render_aexpr(c['tree'], {}, c['style'])} with {c['tree']} via {c['via']}: exact arithmetic gives {exp}, implementation gave {out}"
             return None
+        if c["kind"] == "ux":
+            exp = spec_uexpr(c["tree"])
+            exp = "err" if exp is None else f"uint:{exp}"
+            if out != exp:
+                return f"{render_lits(c['tree'], 'u')} via {c['via']} (style {c['style']}): exact arithmetic gives {exp}, implementation gave {out}"
+            return None
+        if c["kind"] == "dx":
+            exp = "double:" + celrun.dbl_bits(spec_dexpr(c["tree"]))
+            if out != exp:
+                return f"double expression {c['tree']} via {c['via']}: IEEE-754 gives {exp}, implementation gave {out}"
+            return None
         kind, op, via = c["kind"], c["op"], c["via"]
         if kind in ("i", "u"):
             lo, hi = (I_MIN, I_MAX) if kind == "i" else (0, U_MAX)
@@ -310,13 +519,9 @@ class C01(Prop):
         x = math.nan if c["a"] == "nan" else celrun.bits_dbl(int(c["a"]))
         y = math.nan if c["b"] == "nan" else celrun.bits_dbl(int(c["b"]))
         if op == "div":
-            if y == 0.0:
-                if x != x or x == 0.0:
-                    r = math.nan
-                else:
-                    r = math.copysign(math.inf, x) * math.copysign(1.0, y)
-            else:
-                r = x / y
+            r = ieee_div(x, y)
+        elif op == "neg":
+            r = -x
         else:
             r = {"add": x + y, "sub": x - y, "mul": x * y}[op]
         exp = celrun.dbl_bits(r)
@@ -327,7 +532,7 @@ class C01(Prop):
         return None
 
     def nontrivial(self, c, out):
-        if c["kind"] == "x":
+        if c["kind"] in ("x", "ux", "dx"):
             return True
         if c["kind"] in ("i", "u"):
             if not celrun.is_value(out) or out.startswith("raise"):
